@@ -79,7 +79,9 @@ CLAIMED = {
     "C09": ("Theorems (tree-level LTS, every schedule = every exploration order, every interleaving with set/delete, reads of current or stale "
             "versions, simulated nodes): stable keys are met or still covered by the fog; complete fog => all stable keys met; no ghosts; "
             "static trie => met == contents, each once; a step is always enabled; at most 17^(L+1) steps; the walk can always be finished. "
-            "The database-level walk (concrete cache, pruning, MissingTraversalNode retry) is tied by correspondence.",
+            "The database-level walk (db reads, the concrete TrieFrontierCache incl. simulated parents, pruning and the MissingTraversalNode "
+            "stutter) is proved to refine that system (Fog/DWalk_proofs.v: C09_D_refines), so all of the above holds of every run of the "
+            "database-level model (C09_D, C09_D_step_bound, C09_D_can_finish); the model is tied to the code by correspondence.",
             "Coq proof (invariant over arbitrary schedules + potential function) + vm_compute correspondence of the D-level walk", "5/C09", ""),
     "C13": ("Theorems (database-level model vs the tree it represents, any H with 32-byte outputs): get_branch refuses only absent "
             "prefix-related keys and otherwise yields trie nodes validating the trie's own answer; ANY offered branch validates only the true "
